@@ -35,13 +35,13 @@ CHECKS = {
    "All text and byte strings of length <= 2 (thorough 3) over 30 structurally significant bytes, every number representation and boundary, the float grid m*10^e and 2^k with neighbours, integers to 2^200, decimal spellings and trees with arbitrary keys in every insertion order go through tojson|fromjson (same printed form, class, bits, bytes, key order; text equal to an independent model printer) and through the command line with ten output-option sets piped back in; every string of <= 4 (thorough 5) tokens over 42 RFC 8259 tokens accepted by an independent parser must be accepted with the same value, exact integers and character-for-character non-integer literals.",
    "trusted: serde_json (arbitrary_precision, preserve_order) as independent parser; the model printer for XJON; Float vs decimal-literal representation is not distinguished where observation-equal", "DESIGN.md §2 C07"),
  "C13": (MC, "vmc+py", "exhaustive strings x in-language round-trip/position laws; independent consumers (dash, Python stdlib) of every formatter",
-   "All strings of length <= 2 (thorough 3) over 32 symbols (metacharacters of shell/CSV/HTML/URL, 1-4 byte characters, a lone invalid byte, NUL) as text and byte strings through 20 round-trip and position laws; 211 regexes x flag subsets x all short subjects for match/capture positions, test, splits reassembly and scan; @sh (alone, on arrays, inside a format string) evaluated by dash, @csv/@tsv/@json/@html/@uri/@base64 read back by independent readers; decoders on all short inputs must not decode a part of malformed input.",
+   "All strings of length <= 2 (thorough 3) over 46 symbols (metacharacters of shell/CSV/HTML/URL, 1-4 byte characters, a lone invalid byte, NUL, entity/percent/base64/escape spellings and their tails) as text and byte strings through 20 round-trip and position laws; 211 regexes x flag subsets x all short subjects for match/capture positions, test, splits reassembly and scan; @sh (alone, on arrays, inside a format string) evaluated by dash, @csv/@tsv/@json/@html/@uri/@base64 read back by independent readers; decoders on all short inputs must not decode a part of malformed input.",
    "trusted: dash, Python csv/json/html/urllib/base64; NUL excluded for @sh; @urid passing malformed sequences through is accepted (nothing truncated)", "DESIGN.md §2 C13"),
  "C14": (MC, "vmc+py", "exhaustive placement of reserved string atoms in small trees x in-language identities; independent readers (PyYAML, tomllib, csv, minidom)",
    "98 string atoms (reserved words, indicators, number-like spellings of YAML) at every position of a depth-2 tree (root, element, nested, value, key, adjacent pairs) plus one scalar of every kind and non-string keys: to<F>|from<F> is the identity on the documented domain and an error outside it for YAML, CBOR, TOML; all rows of <= 2 (thorough 3) fields over 33 field atoms for CSV/TSV; every XML token string of <= 4 (thorough 5) tokens accepted by the reader satisfies fromxml|toxml|fromxml == fromxml; what jaq writes is read back by independent readers with the same data; --to F | --from F on the command line agrees with the filters.",
    "trusted: PyYAML BaseLoader (YAML 1.1: scalars starting with ':'/'?' and NEL/LS/PS are excluded from that reader only), tomllib, csv, minidom; documented exceptions of docs/formats.dj", "DESIGN.md §2 C14"),
  "C05": (EX, "vmc", "exhaustive sweep of argument tuples, token strings and byte strings; every case under catch_unwind in supervised child processes with overflow checks and debug assertions",
-   "Every native filter and definition discovered from the current tree, in value, path() and update position, x every tuple of input and arguments over a pool of ~50 (thorough ~100) boundary values (exhaustive for arity <= 1, thorough <= 2; 8 spread values for further positions); every string of <= 3 (thorough 4) tokens over 71 lexer-relevant tokens as filter text: lexed, parsed, loaded, compiled, every diagnostic rendered plain and coloured with every span checked to lie inside the text on character boundaries, accepted programs run; every string of <= 3..4 tokens over structural alphabets through the JSON, YAML, TOML, XML, CSV, TSV and base64 decoders and every byte string of length <= 2 (thorough 3) through the CBOR decoder. A panic, abort or fatal signal is a violation; the supervisor resumes after the fatal case.",
+   "Every native filter and definition discovered from the current tree and 78 syntax forms (operators, comparison, indexing, slicing, assignment, deletion, construction, interpolation with every format, destructuring, folds), in value, path() and update position, x every tuple of input and arguments over a pool of ~70 (thorough ~110) boundary values (every machine-integer edge, non-finite floats, decimal literals, small integers stored as big integers, text/byte strings incl. invalid UTF-8, regex and time-format fragments, arrays, objects, depth-10 nests) (exhaustive for arity <= 1, thorough <= 2; 8 spread values for further positions); every string of <= 3 (thorough 4) tokens over 71 lexer-relevant tokens as filter text: lexed, parsed, loaded, compiled, every diagnostic rendered plain and coloured with every span checked to lie inside the text on character boundaries, accepted programs run; every string of <= 3..4 tokens over structural alphabets through the JSON, YAML, TOML, XML, CSV, TSV and base64 decoders and every byte string of length <= 2 (thorough 3) through the CBOR decoder. A panic, abort or fatal signal is a violation; the supervisor resumes after the fatal case.",
    "not a proof of panic freedom: exhaustive over the stated alphabets only; allocation failure/capacity overflow excluded as resource exhaustion; repetition counts and Bessel orders limited to |n| <= 64", "DESIGN.md §2 C05"),
  "C18": (FE, "vmc+py", "exhaustive crash-point and fault enumeration at the system-call boundary (ptrace monitor) over a scenario table; file-system invariant checked after every run",
    "For each scenario (1..3 files; larger/smaller/equal/empty output; filter error after 0/1 outputs; halt; parse error at value 0/1; failing later file; permission bits; path forms; JSON/YAML/TOML) a dry run records every file-system and write system call after the first input open; the invocation is repeated with the process tree killed before each call, with each failable call failing with each errno of {ENOSPC, EACCES} (thorough: + EIO, EINTR, EROFS), and with each write short. After every run: every input file holds its original bytes or exactly what the invocation without -i prints; replaced only if the filter finished on it and all earlier files were replaced; failed writes never end in status 0; after completion permission bits are unchanged and no temporary file remains.",
